@@ -6,6 +6,7 @@ mod crash;
 mod db;
 mod flock;
 mod image;
+mod seglog;
 mod iohook;
 mod ovl;
 mod stress;
@@ -55,6 +56,7 @@ fn main() {
         "overlay-index" => ovl::run(seed, cases, &mut sink),
         "bitops" => bitops::run(seed, cases, &mut sink),
         "bitops-node" => bitops::run_nodes(seed, cases, &mut sink),
+        "seglog" => seglog::run(seed, cases, &mut sink),
         "core-pp" => core_pp::run(seed, cases, &mut sink),
         "core-mp" => core_mp::run(seed, cases, &mut sink),
         "core-mp-corpus" => {
